@@ -331,6 +331,18 @@ class Parser:
             self.parse_statement()
         if self.new_statement:
             self.statement = self.line
+            if (
+                self.line.endswith(";")
+                and not self.set_line
+                and not self.set_was_in_line
+            ):
+                # the line that ended the previous statement is itself a complete
+                # statement: nothing will be added to it
+                self.statement = self.statement[:-1]
+                self.new_statement = False
+                self.set_default_flags_in_lexer()
+                self.parse_statement()
+                self.statement = None
         else:
             self.statement = None
 
